@@ -35,7 +35,6 @@ use serde_json::{Value, json};
 use std::collections::{BTreeMap, HashMap};
 use std::hash::{Hash, Hasher};
 use std::io::Write;
-use std::sync::mpsc;
 use std::sync::{Arc, Condvar, Mutex};
 use std::time::{Duration, Instant};
 use vharness::{trace, util};
@@ -228,7 +227,13 @@ fn metric_list(e: &TestEntry, name: &str) -> Vec<u64> {
 
 fn agg_of_entry(e: &TestEntry) -> Agg {
     Agg {
-        sum: e.metrics.get("sum").map(|m| m.flatten_and_sort().iter().sum::<f64>() as u64).unwrap_or(0),
+        // exact: the recorded runs use the summed field as a bit mask
+        sum: e.metrics.get("sum").map(|m| m.distribution.iter().map(|o| match o {
+            metrique_writer::Observation::Unsigned(v) => *v,
+            metrique_writer::Observation::Floating(f) => *f as u64,
+            metrique_writer::Observation::Repeated { total, .. } => *total as u64,
+            _ => 0,
+        }).sum::<u64>()).unwrap_or(0),
         last: e.metrics.get("last").and_then(|m| m.flatten_and_sort().first().map(|f| *f as u64)),
         obs: metric_list(e, "obs"),
         obs2: metric_list(e, "obs2"),
@@ -263,12 +268,28 @@ fn fine_key_of_entry(e: &TestEntry) -> String {
 // replay
 // ------------------------------------------------------------------------------------------
 
-fn with_budget<T: Send + 'static>(f: impl FnOnce() -> T + Send + 'static) -> Option<T> {
-    let (tx, rx) = mpsc::channel();
-    std::thread::spawn(move || {
-        let _ = tx.send(f());
-    });
-    rx.recv_timeout(BUDGET).ok()
+/// poll a future on the calling thread, giving up after `budget`
+fn block_on_timeout<F: std::future::Future>(fut: F, budget: Duration) -> Option<F::Output> {
+    struct ThreadWaker(std::thread::Thread);
+    impl std::task::Wake for ThreadWaker {
+        fn wake(self: Arc<Self>) {
+            self.0.unpark();
+        }
+    }
+    let waker = std::task::Waker::from(Arc::new(ThreadWaker(std::thread::current())));
+    let mut cx = std::task::Context::from_waker(&waker);
+    let mut fut = std::pin::pin!(fut);
+    let deadline = Instant::now() + budget;
+    loop {
+        if let std::task::Poll::Ready(v) = fut.as_mut().poll(&mut cx) {
+            return Some(v);
+        }
+        let now = Instant::now();
+        if now >= deadline {
+            return None;
+        }
+        std::thread::park_timeout(deadline - now);
+    }
 }
 
 /// new downstream entries since the last look
@@ -569,14 +590,8 @@ impl Target for TWorker {
             return;
         }
         let ok = match self.d.as_mut().unwrap() {
-            Driver::WorkerKeyed(w) => {
-                let w = w.clone();
-                with_budget(move || futures::executor::block_on(w.flush())).is_some()
-            }
-            Driver::WorkerTee(w) => {
-                let w = w.clone();
-                with_budget(move || futures::executor::block_on(w.flush())).is_some()
-            }
+            Driver::WorkerKeyed(w) => block_on_timeout(w.flush(), BUDGET).is_some(),
+            Driver::WorkerTee(w) => block_on_timeout(w.flush(), BUDGET).is_some(),
             Driver::Tee(t) => {
                 t.flush();
                 true
@@ -662,7 +677,13 @@ fn cmd_replay(a: &HashMap<String, String>) {
         let mut mism: Vec<Value> = Vec::new();
         let mut flushes = 0u64;
         let mut stuck: Vec<&'static str> = Vec::new();
-        let use_kinds: Vec<String> = kinds.iter().filter(|k| !(workers_off && (k.as_str() == "worker" || k.as_str() == "tee_worker"))).cloned().collect();
+        // the two threaded arrangements alternate between behaviours (each spawns a thread)
+        let skip_worker = if id % 2 == 0 { "worker" } else { "tee_worker" };
+        let both = kinds.iter().any(|k| k == "worker") && kinds.iter().any(|k| k == "tee_worker");
+        let use_kinds: Vec<String> = kinds.iter()
+            .filter(|k| !(workers_off && (k.as_str() == "worker" || k.as_str() == "tee_worker")))
+            .filter(|k| !(both && k.as_str() == skip_worker))
+            .cloned().collect();
         for mut t in make_targets(&use_kinds) {
             let before = mism.len();
             for (i, st) in steps.iter().enumerate() {
@@ -715,11 +736,15 @@ fn cmd_replay(a: &HashMap<String, String>) {
 // record: producer threads on a WorkerSink (T direction)
 // ------------------------------------------------------------------------------------------
 
+/// (a flush is in progress, its FlushBegin has been logged)
+type FlushState = Arc<Mutex<(bool, bool)>>;
+
 /// wrapper around the inner aggregator, living in the worker thread: logs what the worker does
 struct Sentinel {
     inner: KeyedAggregator<In>,
     epoch: u64,
     done: Arc<(Mutex<bool>, Condvar)>,
+    fs: FlushState,
 }
 impl Sentinel {
     fn live(&self) -> bool {
@@ -738,13 +763,14 @@ impl AggregateSink<InEntry> for Sentinel {
 }
 impl FlushableSink for Sentinel {
     fn flush(&mut self) {
-        // a flush of an empty aggregator is the same as no flush: FlushBegin;FlushEnd stutters
-        if self.live() {
-            trace::ev_dedup(json!({"ev": "FlushBegin"}));
-        }
+        // a flush that appends nothing downstream is not logged (FlushBegin;FlushEnd without an Emit
+        // changes nothing in the specification); FlushBegin is logged by the downstream sink just
+        // before the first Emit - same thread, so its order against Merged events is exact
+        *self.fs.lock().unwrap() = (true, false);
         self.inner.flush();
-        if self.live() {
-            trace::ev_dedup(json!({"ev": "FlushEnd"}));
+        let logged = std::mem::replace(&mut *self.fs.lock().unwrap(), (false, false)).1;
+        if logged && self.live() {
+            trace::evi("FlushEnd", &[]);
         }
     }
 }
@@ -761,11 +787,19 @@ impl Drop for Sentinel {
 /// downstream sink: every appended aggregate becomes an Emit event, decoded into input ids
 struct EmitSink {
     epoch: u64,
+    fs: FlushState,
 }
 impl AnyEntrySink for EmitSink {
     fn append_any(&self, entry: impl Entry + Send + 'static) {
         if self.epoch != trace::epoch() {
             return;
+        }
+        {
+            let mut g = self.fs.lock().unwrap();
+            if g.0 && !g.1 {
+                g.1 = true;
+                trace::evi("FlushBegin", &[]);
+            }
         }
         let e = to_test_entry(entry);
         let a = agg_of_entry(&e);
@@ -810,8 +844,9 @@ fn run_scen(sc: &Scen) {
     let np = sc.producers.len();
     trace::ev(json!({"ev": "Reset", "handles": (np + 1) as i64, "scenario": sc.id as i64}));
     let done = Arc::new((Mutex::new(false), Condvar::new()));
-    let inner = KeyedAggregator::<In>::new(BoxEntrySink::new(EmitSink { epoch: sc.id }));
-    let w = WorkerSink::new(Sentinel { inner, epoch: sc.id, done: done.clone() }, Duration::from_micros(sc.interval_us));
+    let fs: FlushState = Arc::new(Mutex::new((false, false)));
+    let inner = KeyedAggregator::<In>::new(BoxEntrySink::new(EmitSink { epoch: sc.id, fs: fs.clone() }));
+    let w = WorkerSink::new(Sentinel { inner, epoch: sc.id, done: done.clone(), fs }, Duration::from_micros(sc.interval_us));
     let start = Arc::new(std::sync::Barrier::new(np + 1));
     let mut threads = Vec::new();
     let mut next_id = 0u64;
@@ -839,8 +874,7 @@ fn run_scen(sc: &Scen) {
                 trace::evi("SendEnd", &[("i", id as i64)]);
                 if p.flush_after > 0 && j + 1 == p.flush_after {
                     trace::evi("FlushReq", &[("q", pid)]);
-                    let h2 = h.clone();
-                    match with_budget(move || futures::executor::block_on(h2.flush())) {
+                    match block_on_timeout(h.flush(), BUDGET) {
                         Some(()) => trace::evi("FlushDone", &[("q", pid)]),
                         None => trace::evi("FlushTimeout", &[("q", pid)]),
                     };
